@@ -202,6 +202,12 @@ class ConcurrentExecutor(ABC, Generic[CallableType, ResultType]):
             "▶️ Executing concurrent operation, items: %d", len(self.executables)
         )
 
+        if not self.executables:
+            # Nothing to run: the completion policy is decided at once. (A thread pool
+            # cannot be created with zero workers, and nothing would ever signal completion.)
+            self.executables_with_state = []
+            return self._create_result()
+
         max_workers = self.max_concurrency or len(self.executables)
 
         self.executables_with_state = [
